@@ -168,6 +168,10 @@ def abstract_query(assumptions, goal):
     try:
         na = [ab.tr(a) for a in assumptions]
         ng = ab.tr(goal)
-    except (ValueError, z3.Z3Exception):
+    except (ValueError, z3.Z3Exception) as e:
+        import os
+
+        if os.environ.get("PYVC_DEBUG_ABS"):
+            print("ABSTRACTION FAILED:", str(e)[:400])
         return None
     return na + ab.distinctness(), ng, not ab.interpreted_used
